@@ -239,6 +239,16 @@ func workerBatch(t *testing.T, a workerArgs) int {
 				rf.Minimised = true
 				rf.Sig, rf.Detail = v2.Sig, v2.Detail
 				fv.Sig, fv.Detail = v2.Sig, v2.Detail
+				if k2 := v2.Clause + "|" + v2.Sig; k2 != key {
+					// the minimised history has a simpler shape: file it under that shape
+					if prev, ok := seenV[k2]; ok {
+						prev.Count++
+						delete(seenV, key)
+						continue
+					}
+					delete(seenV, key)
+					seenV[k2] = fv
+				}
 			}
 			// final confirming run with the full log
 			oc := runOne(t, p, ReplayTape(rec), RunOpt{Tier: a.Tier, Full: true})
